@@ -138,7 +138,6 @@ mod internal_metrics;
 use std::{
     fmt,
     io::{self, Write},
-    mem,
     path::{Path, PathBuf},
     sync::Arc,
     thread,
